@@ -204,7 +204,7 @@ func runC05(c *fw.Ctx) {
 				if len(x.Data) >= 4096 {
 					k.Count("whole_tensor_cases_ge_4096_elems", 1)
 				}
-				rx := rt.MustLeaf(x, false)
+				rx := coinLeaf(x)
 				var got [7]float64
 				if p := call(func() {
 					got = [7]float64{rx.Sum(), rx.Max(), rx.Min(), rx.Avg(), rx.Var(), rx.Std(), rx.Mean()}
@@ -230,7 +230,7 @@ func c05Along1(k *fw.K, in ref.Instr, kind ref.Stat, x *ref.T) {
 		k.Failf("harness: %v", err)
 		return
 	}
-	rx := rt.MustLeaf(x, false)
+	rx := coinLeaf(x)
 	got, err, p := exec(in, []tensor.Tensor{rx})
 	if p != nil || err != nil || got == nil {
 		k.Failf("%s(%d) on shape %v: panic=%v err=%v", in.Op, in.Dim, x.Shape, p, err)
